@@ -255,8 +255,10 @@ theorem prefixClosed_applyOp (x : Index) (h : PrefixClosed x.nodes) (op : IOp) :
     split
     · exact h
     · split
-      · exact prefixClosed_trim _ (prefixClosed_putNode _ h _) _ _
-      · exact prefixClosed_trim _ (prefixClosed_putNode _ h _) _ _
+      · exact h
+      · split
+        · exact prefixClosed_trim _ (prefixClosed_putNode _ h _) _ _
+        · exact prefixClosed_trim _ (prefixClosed_putNode _ h _) _ _
   | inlineSubscribe id s =>
     simp only [applyOp, inlineSubscribe]
     split
